@@ -22,6 +22,27 @@ func TestSweep(t *testing.T) {
 			if c1 == c2 {
 				continue
 			}
+			// non-empty operands that hold less than one frame (either side, both sides)
+			for p1 := 0; p1 < c1; p1++ {
+				for p2 := 0; p2 < c2; p2++ {
+					for _, e := range convtab.Entries {
+						if p1 > 0 {
+							Oracle.One(t, env, rec, "sweep", &Case{Entry: "conv", S: e.S.Name, D: e.D.Name, C1: c1, C2: c2, F1: 0, F2: 2, A: p2, Spare: 1, P1: p1, P2: p2})
+						}
+						if p2 > 0 {
+							Oracle.One(t, env, rec, "sweep", &Case{Entry: "conv", S: e.S.Name, D: e.D.Name, C1: c1, C2: c2, F1: 2, F2: 0, A: p1, Spare: 1, P1: p1, P2: p2})
+						}
+						if p1 > 0 && p2 > 0 {
+							Oracle.One(t, env, rec, "sweep", &Case{Entry: "conv", S: e.S.Name, D: e.D.Name, C1: c1, C2: c2, F1: 0, F2: 0, A: 1, Spare: 1, P1: p1, P2: p2})
+						}
+					}
+					for _, tn := range names {
+						if p1 > 0 && p2 > 0 {
+							Oracle.One(t, env, rec, "sweep", &Case{Entry: "append", S: tn, C1: c1, C2: c2, F1: 0, F2: 0, A: 1, Spare: 1, P1: p1, P2: p2})
+						}
+					}
+				}
+			}
 			for _, sh := range [][4]int{{2, 2, 0, 0}, {3, 1, 1, 2}, {1, 3, 2, 0}} {
 				for _, e := range convtab.Entries {
 					Oracle.One(t, env, rec, "sweep", &Case{Entry: "conv", S: e.S.Name, D: e.D.Name, C1: c1, C2: c2, F1: sh[0], F2: sh[1], A: sh[2], Spare: sh[3]})
